@@ -21,7 +21,10 @@ RULE = (
     "attribute array, 1..3 '_'-concatenated components, 1..3 priority "
     "fall-backs (including paths that do not exist). Run: the real "
     "JSONDataSource on files in a temp dir, whole-file mode (one file per "
-    "document, dirpath) and one-JSON-per-line mode (one file, filepath). "
+    "document, dirpath) and one-JSON-per-line mode (one file, filepath); "
+    "half of the cases vary the layout: whole files in nested sub-directories "
+    "(the directory is searched recursively), a single whole file through "
+    "`filepath`, several per-line files below one directory. "
     "Oracle: vlib/refjq.py (pure Python reference of the HOWTO) - multiset "
     "of yielded OTelEvents == multiset of reference records that validate; "
     "both modes equal. Non-trivial: >=2 valid spans, and either >=1 invalid "
@@ -42,7 +45,8 @@ FIELDS = ("job_name", "job_id", "event_type", "event_id", "start_timestamp",
 
 
 # ---- running the real code -----------------------------------------------
-def run_real(docs, mapping, per_line, raw_unicode=False, blank_tail=False):
+def run_real(docs, mapping, per_line, raw_unicode=False, blank_tail=False,
+             layout=0):
     from tel2puml.otel_to_pv.data_sources.json_data_source.json_config import (
         JSONDataSourceConfig, OTelFieldMapping)
     from tel2puml.otel_to_pv.data_sources.json_data_source.json_datasource \
@@ -50,7 +54,22 @@ def run_real(docs, mapping, per_line, raw_unicode=False, blank_tail=False):
     d = tempfile.mkdtemp(prefix="verif-c13-")
     try:
         fm = OTelFieldMapping(**mapping)
-        if per_line:
+        if per_line and layout & 2 and len(docs) >= 2:
+            # several per-line files below one directory, one of them nested
+            cut = 1 + layout % (len(docs) - 1) if len(docs) > 2 else 1
+            os.makedirs(os.path.join(d, "sub", "deep"))
+            for path, part in ((os.path.join(d, "b.json"), docs[:cut]),
+                               (os.path.join(d, "sub", "deep", "a.jsonl"),
+                                docs[cut:])):
+                with open(path, "w", encoding="utf-8") as f:
+                    for doc in part:
+                        f.write(json.dumps(doc, ensure_ascii=not raw_unicode)
+                                + "\n")
+                    if blank_tail:
+                        f.write("\n")
+            cfg = JSONDataSourceConfig(filepath=None, dirpath=d,
+                                       json_per_line=True, field_mapping=fm)
+        elif per_line:
             path = os.path.join(d, "all.json")
             with open(path, "w", encoding="utf-8") as f:
                 for doc in docs:
@@ -60,9 +79,21 @@ def run_real(docs, mapping, per_line, raw_unicode=False, blank_tail=False):
                     f.write("\n")       # file ends with an empty line
             cfg = JSONDataSourceConfig(filepath=path, dirpath=None,
                                        json_per_line=True, field_mapping=fm)
+        elif layout & 1 and len(docs) == 1:
+            # whole-file mode through `filepath`
+            path = os.path.join(d, "single.json")
+            with open(path, "w", encoding="utf-8") as f:
+                json.dump(docs[0], f, indent=2, ensure_ascii=not raw_unicode)
+            cfg = JSONDataSourceConfig(filepath=path, dirpath=None,
+                                       json_per_line=False, field_mapping=fm)
         else:
             for i, doc in enumerate(docs):
-                with open(os.path.join(d, f"doc{i}.json"), "w",
+                sub = d
+                if layout & 1:
+                    # the directory is searched recursively
+                    sub = os.path.join(d, f"s{i % 2}", *(["x"] * (i % 3)))
+                    os.makedirs(sub, exist_ok=True)
+                with open(os.path.join(sub, f"doc{i}.json"), "w",
                           encoding="utf-8") as f:
                     json.dump(doc, f, indent=(None if i % 2 else 2),
                               ensure_ascii=not raw_unicode)
@@ -101,7 +132,8 @@ def check_case(case):
         try:
             got = run_real(docs, mapping, per_line,
                            bool(case.get("raw_unicode")),
-                           bool(case.get("blank_tail")))
+                           bool(case.get("blank_tail")),
+                           int(case.get("layout", 0)))
         except Exception as e:
             raise Violation(f"{label}: JSONDataSource raised "
                             f"{type(e).__name__}: {str(e)[:400]}")
@@ -152,6 +184,12 @@ def classify(case):
         classes.append("files_without_unicode_escapes")
     if case.get("blank_tail"):
         classes.append("per_line_file_ends_with_blank_line")
+    lay = int(case.get("layout", 0))
+    if lay & 1:
+        classes.append("whole_file_through_filepath" if len(case["docs"]) == 1
+                       else "whole_files_in_nested_directories")
+    if lay & 2 and len(case["docs"]) >= 2:
+        classes.append("several_per_line_files_in_a_directory_tree")
     seen = {}
     for spec in case["mapping"].values():
         for comp in refjq.normalise(spec):
@@ -374,6 +412,9 @@ def case_strategy():
             case["raw_unicode"] = True      # files written without \u escapes
         if draw(st.integers(0, 3)) == 0:
             case["blank_tail"] = True       # per-line file ends in a blank line
+        lay = draw(st.sampled_from([0, 0, 1, 2, 3, 7]))
+        if lay:
+            case["layout"] = lay            # where the files are put
         return case
 
     return build()
